@@ -548,7 +548,7 @@ fn check(ctx: &Ctx, env: &Env, d: &Doc) -> Check {
 }
 
 pub fn run(ctx: &Ctx) {
-    ctx.set_rule("generated programs over the public builders and types: LaunchBuilder/ProcessBuilder call sequences (process, processes, label(s), slice(s), arg, args, default, working_directory in any order and multiplicity; in ~5% a final non-UTF-8 working directory, which must be refused), BuildPlanBuilder sequences of provides/requires(+metadata, also set twice — the second value, possibly empty, counts)/or incl. leading, trailing and consecutive or, LayerContentMetadata (types None / all 8 flag combinations; generic, absent and typed metadata), Store, ExecDProgramOutput (through a helper process whose fd 3 is a file), PackageDescriptor; strings weighted towards quotes, backslashes, control characters, NUL, DEL, U+0085, U+2028, BOM, '#', '=', '[', astral characters and the empty string; metadata tables nest all TOML value kinds with arbitrary keys. Oracle: Python tomllib must parse the written text; a reader knowing only the spec's field names and defaults must recover the independently computed model; unknown keys in the output are a violation; libcnb re-reads an equal value where it can. Non-trivial: payload contains a character needing TOML escaping or metadata nested >= 2, or the builder sequence has >= 2 `or` / an empty group; distinct = hash of the program.");
+    ctx.set_rule("generated programs over the public builders and types: LaunchBuilder/ProcessBuilder call sequences (process, processes, label(s), slice(s), arg, args, default, working_directory in any order and multiplicity; in ~5% a final non-UTF-8 working directory, which must be refused), BuildPlanBuilder sequences of provides/requires(+metadata, also set twice — the second value, possibly empty, counts)/or incl. leading, trailing and consecutive or, LayerContentMetadata (types None / all 8 flag combinations; generic, absent and typed metadata), Store, ExecDProgramOutput (through a helper process whose fd 3 is a file; built with ExecDProgramOutput::new or, for an odd number of pairs, through the From<iterator of pairs> conversion), PackageDescriptor; strings weighted towards quotes, backslashes, control characters, NUL, DEL, U+0085, U+2028, BOM, '#', '=', '[', astral characters and the empty string; metadata tables nest all TOML value kinds with arbitrary keys. Oracle: Python tomllib must parse the written text; a reader knowing only the spec's field names and defaults must recover the independently computed model; unknown keys in the output are a violation; libcnb re-reads an equal value where it can. Non-trivial: payload contains a character needing TOML escaping or metadata nested >= 2, or the builder sequence has >= 2 `or` / an empty group; distinct = hash of the program.");
     ctx.assume("datetimes are restricted to local date-times/dates without fractional seconds so that their text form is reader-independent");
     let env = Env { scratch: Scratch::new("c07"), reader: RefCell::new(TomlReader::new()) };
     for (_p, v) in ctx.regress_files() {
